@@ -1,6 +1,132 @@
-/-! Driver entry for property C30 (stub: not implemented yet). -/
-namespace HeartwoodModel.Driver.C30
+import HeartwoodModel.Model.Diff
+import HeartwoodModel.Driver.Util
+/-! Driver entry for C30. Cases (bytes in hex, `-` = empty):
 
-def run (_args : List String) : String := "unimplemented"
+* `hdr <text>`  — `HunkHeader::decode` → `ok:<oldNo>,<oldSize>,<newNo>,<newSize>,<text>,<re-encoded>` | `err`
+* `mod <text>`  — `Modification::decode` → `ok:<a|d|c><line>,<re-encoded>` | `err`
+* `hunk <text>` — `Hunk::decode` → `ok:<hunk>,<re-encoded>` | `err` | `panic`
+* `rt <header> <o1>-<o2> <n1>-<n2> <lines>` — a hunk value, `Hunk::encode`, then `Hunk::decode` of that
+  text → `<encoded> ok:<hunk>` | `<encoded> err` | `<encoded> panic`
+  (`<lines>` = `-` or `a<no>:<hex>` | `d<no>:<hex>` | `c<old>.<new>:<hex>` joined by `,`)
+* `diff <tree> <tree>` — whole-diff round trip through libgit2: not modelled: `checked`
+  (the verdict on these cases is the oracle's).
+
+`<hunk>` = `<header>|<lines>|<o1>-<o2>|<n1>-<n2>`.
+-/
+namespace HeartwoodModel.Driver.C30
+open HeartwoodModel.Diff HeartwoodModel.Driver.Util
+
+def toBytes (l : List Nat) : ByteArray := ⟨(l.map UInt8.ofNat).toArray⟩
+
+/-- Valid UTF-8 → text. -/
+def text? (l : List Nat) : Option Text := (String.fromUTF8? (toBytes l)).map String.toList
+
+def hexText (t : Text) : String := toHex ((String.ofList t).toUTF8.toList.map UInt8.toNat)
+
+/-- The byte lines `read_line` sees (each including its `\n`, except possibly the last). -/
+def byteLines : List Nat → List Nat → List (List Nat)
+  | [], [] => []
+  | [], acc => [acc.reverse]
+  | b :: bs, acc => if b = 10 then (b :: acc).reverse :: byteLines bs [] else byteLines bs (b :: acc)
+
+/-- A reader over bytes: a line that is not UTF-8 makes `read_line` fail. -/
+def readerOfBytes (l : List Nat) : Reader := (byteLines l []).map text?
+
+def showMod : Mod → String
+  | .addition l n => s!"a{n}:{hexText l}"
+  | .deletion l n => s!"d{n}:{hexText l}"
+  | .context l o n => s!"c{o}.{n}:{hexText l}"
+
+def showLines (ms : List Mod) : String :=
+  if ms.isEmpty then "-" else joinWith "," (ms.map showMod)
+
+def showHunk (h : Hunk) : String :=
+  s!"{hexText h.header}|{showLines h.lines}|{h.old.1}-{h.old.2}|{h.new.1}-{h.new.2}"
+
+def mod? (t : String) : Option Mod :=
+  match splitOn t ':' with
+  | [head, body] =>
+    match head.toList with
+    | 'a' :: n => do
+      let n ← nat? (String.ofList n); let l ← (hexBytes? body).bind text?; some (.addition l n)
+    | 'd' :: n => do
+      let n ← nat? (String.ofList n); let l ← (hexBytes? body).bind text?; some (.deletion l n)
+    | 'c' :: ns =>
+      match splitOn (String.ofList ns) '.' with
+      | [o, n] => do
+        let o ← nat? o; let n ← nat? n; let l ← (hexBytes? body).bind text?; some (.context l o n)
+      | _ => none
+    | _ => none
+  | _ => none
+
+def lines? (t : String) : Option (List Mod) :=
+  if t == "-" then some [] else (splitOn t ',').mapM mod?
+
+def range? (t : String) : Option (Nat × Nat) :=
+  match splitOn t '-' with
+  | [a, b] => do let a ← nat? a; let b ← nat? b; some (a, b)
+  | _ => none
+
+def u32? (n : Nat) : Bool := n < 4294967296
+
+def modU32 : Mod → Bool
+  | .addition _ n => u32? n
+  | .deletion _ n => u32? n
+  | .context _ o n => u32? o && u32? n
+
+/-- Superficial syntax check of a tree token (`-` or `<path>:<f|x>:<hex>` joined by `,`). -/
+def tree? (t : String) : Bool :=
+  t == "-" || (splitOn t ',').all fun e =>
+    match splitOn e ':' with
+    | [name, mode, content] => !name.isEmpty && (mode == "f" || mode == "x") && (hexBytes? content).isSome
+    | _ => false
+
+def showDecoded : Res (Hunk × Reader) → String
+  | .ok (h, _) => "ok:" ++ showHunk h
+  | .err _ => "err"
+  | .panic _ => "panic"
+
+def run (args : List String) : String :=
+  match args with
+  | ["hdr", t] =>
+    match hexBytes? t with
+    | none => "bad-op"
+    | some b =>
+      match decodeHeader (readerOfBytes b) with
+      | .ok (h, _) =>
+        s!"ok:{h.oldNo},{h.oldSize},{h.newNo},{h.newSize},{hexText h.text},{hexText h.encode}"
+      | .err _ => "err"
+      | .panic _ => "panic"
+  | ["mod", t] =>
+    match hexBytes? t with
+    | none => "bad-op"
+    | some b =>
+      match decodeMod (readerOfBytes b) with
+      | .ok (m, _) =>
+        let k := match m with
+          | .addition _ _ => "a"
+          | .deletion _ _ => "d"
+          | .context _ _ _ => "c"
+        s!"ok:{k}{hexText m.line},{hexText m.encode}"
+      | .err _ => "err"
+      | .panic _ => "panic"
+  | ["hunk", t] =>
+    match hexBytes? t with
+    | none => "bad-op"
+    | some b =>
+      match decodeHunk (readerOfBytes b) with
+      | .ok (h, _) => s!"ok:{showHunk h},{hexText h.encode}"
+      | .err _ => "err"
+      | .panic _ => "panic"
+  | ["rt", header, old, new, lines] =>
+    match (hexBytes? header).bind text?, range? old, range? new, lines? lines with
+    | some header, some old, some new, some lines =>
+      if u32? old.1 && u32? old.2 && u32? new.1 && u32? new.2 && lines.all modU32 then
+        let text := Hunk.encode ⟨header, lines, old, new⟩
+        s!"{hexText text} {showDecoded (decodeHunk (Reader.ofText text))}"
+      else "bad-op"
+    | _, _, _, _ => "bad-op"
+  | ["diff", old, new] => if tree? old && tree? new then "checked" else "bad-op"
+  | _ => "bad-op"
 
 end HeartwoodModel.Driver.C30
